@@ -383,8 +383,17 @@ impl KafkaConnection {
     }
 
     pub fn read_exact_alloc(&mut self, size: u64) -> Result<Vec<u8>> {
-        let mut buffer = vec![0; size as usize];
-        self.read_exact(buffer.as_mut_slice())?;
+        // ~ grow the buffer as the data arrives instead of allocating
+        // whatever size the remote end announced up front
+        const CHUNK: usize = 64 * 1024;
+        let size = size as usize;
+        let mut buffer = Vec::new();
+        while buffer.len() < size {
+            let off = buffer.len();
+            let n = std::cmp::min(size - off, CHUNK);
+            buffer.resize(off + n, 0);
+            self.read_exact(&mut buffer[off..])?;
+        }
         Ok(buffer)
     }
 
